@@ -1,6 +1,7 @@
 /- Line-protocol front end for the conservation specification (C01). Core only. -/
 import AiuVerif.Basic
 import AiuVerif.Model.Conserve
+import AiuVerif.Model.ExportArgs
 
 namespace AiuVerif.Drv.C01
 open AiuVerif AiuVerif.Conserve
@@ -29,6 +30,16 @@ def showCls : Option Cls → String
   | some .merge => "merge"
   | some .outOfDomain => "outOfDomain"
 
+/-- `k:v,k:v` (keys plain, values opaque tokens), `%` = empty dictionary -/
+def parseKV (s : String) : Option (ExportArgs.KV String) :=
+  if s = "%" then some []
+  else parseAll (fun w => match w.splitOn ":" with
+    | [k, v] => some (k, v)
+    | _ => none) (s.splitOn ",")
+
+def showKV (d : ExportArgs.KV String) : String :=
+  if d.isEmpty then "%" else joinWith "," (d.map (fun p => p.1 ++ ":" ++ p.2))
+
 def handle (args : List String) : String :=
   match args with
   | ["spec", o, sl] =>
@@ -36,6 +47,11 @@ def handle (args : List String) : String :=
     | some o, some ss => joinWith "," ((specKept o ss).map toString)
     | _, _ => "bad-op"
   | ["class", name] => showCls (classOf name)
+  | ["xargs", top, a] =>
+    -- the args dictionary of the exported event: top-level dictionary, `args` (`-` = absent)
+    match parseKV top, (if a = "-" then some none else (parseKV a).map some) with
+    | some t, some a => showKV (ExportArgs.exportArgs t a)
+    | _, _ => "bad-op"
   | _ => "bad-op"
 
 end AiuVerif.Drv.C01
